@@ -12,6 +12,7 @@ import c01
 
 PROP = "C04"
 COQ_PROPS = "Props/C04.v"
+COQ_PROPS_EXTRA = ["Props/C04std.v"]
 HARNESS = {"bin": "core"}
 EXTRA_HARNESS = {"dev": ("dev", ())}
 EXTRA_ORACLE = ["dev"]
